@@ -25,6 +25,8 @@ def cases(tier, rng):
             ov = {"ang": rng.choice([0.75, 2.5])}
             if i % 8 == 0:
                 ov["k1"] = rng.choice([0, 1, 3])
+        if i % 3 == 0 and p["lets"]:
+            ov["k0"] = rng.choice([0, 1])
         text = ref.to_text(p)
         try:
             ref.static_valid(p, ov)
